@@ -273,6 +273,22 @@ def run_case(c):
             for b in beads:
                 if any(b['mef'].values()) and not b.get('expect_error'):
                     bead_fx[b['id']] = hand_beads(b, d)
+            # the optional beads table only adds a comparison of acquisition settings: without it every row yields the same sample
+            try:
+                st_nb = ui.read_table(wb, 'Samples', 'ID')
+                got_nb = ui.process_samples_table(st_nb, it, mef_transform_fxns=fx, base_dir=d, verbose=False, plot=False)
+            except Exception as e:
+                res.violation('workflow-raises:no-beads-table:%s' % type(e).__name__, 'process_samples_table without the optional beads_table raised %s: %s on a well-formed generated experiment %r' % (
+                    type(e).__name__, e, c), one)
+                return res
+            for srow in samples:
+                s_a, s_b = got.get(srow['id']), got_nb.get(srow['id'])
+                if isinstance(s_a, Exception) or s_a is None:
+                    continue
+                if isinstance(s_b, Exception) or s_b is None or fp(s_b) != fp(s_a):
+                    res.violation('no-beads-table-differs', 'sample row %s (units %s): processed without the optional beads_table the row yields %s' % (
+                        srow['id'], srow['units'], ('the error %s' % s_b) if isinstance(s_b, Exception) or s_b is None else 'another sample: %s' % diff(fp(s_b), fp(s_a))), one)
+                    return res
             for srow in samples:
                 sid = srow['id']
                 what = 'sample row %s (units %s, gate fraction %r, file %s)' % (sid, srow['units'], srow['gate_fraction'], srow['file'])
